@@ -95,6 +95,8 @@ def generate(ctx):
     for i in range(ctx.n(400, 15000)):
         a, notes = G.gen_wf_abs(rng, channels=(0, 1))
         values = rng.choice(VALUE_LISTS)
+        if rng.random() < 0.3:      # random list: duplicates and any order allowed
+            values = [rng.choice([1, 2, 3, 4, 6, 8, 9, 12, 16, 18, 24, 36, 48]) for _ in range(rng.randint(1, 6))]
         dne = rng.random() < 0.5
         ctx.case((a, values, dne), any(n[3] not in values for n in notes))
         ctx.check("qnl", {"abs": a, "values": values, "dne": dne})
